@@ -19,3 +19,14 @@ fn k8_rswide_decode() {
 
 // (the bounded one-line stand-in b6_rswide_one_line was removed: RSWide is proved by the Verus unit `rswide`, and the
 // stand-in exceeded the CBMC time limit)
+
+/// the derived Default of RSWide is field-wise: empty bit vector, empty arrays, n_zeros = 0 (discharges the trusted
+/// `<RSWide as Default>::default` specification of the Verus unit rswide; concrete execution, no symbolic input)
+#[kani::proof]
+fn k12_rswide_default() {
+    let r = RSWide::default();
+    assert!(r.bv.len() == 0 && r.bv.count_ones() == 0);
+    assert!(r.n_zeros == 0);
+    assert!(r.superblock_metadata.len() == 0);
+    assert!(r.select_samples[0].len() == 0 && r.select_samples[1].len() == 0);
+}
